@@ -1,5 +1,13 @@
 (* Driver for the extracted codec models.  One case per stdin line, one trace per stdout line.
-   usage: driver <mode>     modes: c15 (input: hex bytes)  c15enc (input: hex strings separated by ,) *)
+   usage: driver <mode>
+   modes: c15    input: hex bytes
+          c15enc input: hex strings separated by ,
+          c13    input: <codec>;<read script>      codec = lines | lp | lpd | bytes
+                        read script = comma separated  c<hex> (chunk) | p (Pending) | z (0-byte read) | e (io error)
+          c14    input: <codec>;<write answers>;<flush answers>;<shutdown answers>;<ops>
+                        write answers  a<k> | p | z | e     flush/shutdown answers  o | p | e
+                        ops  r (poll_ready) | f (poll_flush) | c (poll_close) | s<len>x<seed> (start_send)
+   Trace formats: see notes/codec.md. *)
 open Gen
 
 let rec pos_of_int n = if n = 1 then XH else if n land 1 = 1 then XI (pos_of_int (n lsr 1)) else XO (pos_of_int (n lsr 1))
@@ -28,9 +36,113 @@ let c15enc line =
     | None -> "OUT_OF_FUEL"
     | Some ((its, its2), r) -> show_items its ^ "|" ^ show_items its2 ^ "|" ^ hex_of_bytes r)
 
+(* ------------------------------------------------------------------------------------ *)
+(* shared by c13/c14 *)
+let rec nat_of_int n = if n <= 0 then O else S (nat_of_int (n - 1))
+let nat_of_int n = (* tail recursive *)
+  let rec go acc n = if n <= 0 then acc else go (S acc) (n - 1) in go O n
+let int_of_nat n = let rec go acc = function O -> acc | S m -> go (acc + 1) m in go 0 n
+let n_of_int n = if n = 0 then N0 else Npos (pos_of_int n)
+
+let crc_table = Array.init 256 (fun i ->
+  let c = ref i in
+  for _ = 0 to 7 do
+    if !c land 1 = 1 then c := 0xEDB88320 lxor (!c lsr 1) else c := !c lsr 1
+  done; !c)
+let crc32 (l : int list) =
+  let c = List.fold_left (fun c b -> crc_table.((c lxor b) land 0xff) lxor (c lsr 8)) 0xFFFFFFFF l in
+  c lxor 0xFFFFFFFF
+
+(* short byte strings in hex, long ones as #<len>.<crc32> *)
+let blob (l : z list) =
+  let n = List.length l in
+  if n <= 24 then hex_of_bytes l
+  else Printf.sprintf "#%d.%08x" n (crc32 (List.map int_of_z l))
+
+let split_nonempty c s = if s = "" then [] else String.split_on_char c s
+
+(* ---- c13 ---- *)
+let parse_rd tok =
+  match tok.[0] with
+  | 'c' -> RChunk (bytes_of_hex (String.sub tok 1 (String.length tok - 1)))
+  | 'p' -> RPending
+  | 'z' -> REof
+  | 'e' -> RErr
+  | _ -> failwith ("bad read token " ^ tok)
+
+let show_res show_item (r, calls) =
+  (match r with
+   | Pending -> "P" | Done -> "N" | IoError -> "X" | Panic -> "!"
+   | Item a -> "I" ^ show_item a) ^ "@" ^ string_of_int (int_of_nat calls)
+
+let show_lines_item = function IOk s -> "O:" ^ blob s | IErr -> "E"
+let show_lp_item = function LOk p -> "O:" ^ blob p | LBadHdr -> "H" | LTrunc -> "T" | LRemaining -> "R"
+let show_bytes_item = function BOk p -> "O:" ^ blob p | BRemaining -> "R"
+
+let c13 line =
+  let i = String.index line ';' in
+  let codec = String.sub line 0 i in
+  let toks = split_nonempty ',' (String.sub line (i + 1) (String.length line - i - 1)) in
+  let sc = List.map parse_rd toks in
+  let nbytes = List.fold_left (fun a t -> if t.[0] = 'c' then a + (String.length t - 1) / 2 else a) 0 toks in
+  let fuel = nat_of_int (List.length toks + nbytes + 8) and extra = nat_of_int 2 in
+  let go dec dec_eof show =
+    let out = run_read dec dec_eof fuel extra sc rinit in
+    if List.exists (fun (r, _) -> r = Panic) out then "PANIC"
+    else String.concat "," (List.map (show_res show) out) in
+  match codec with
+  | "lines" -> go decode decode_eof show_lines_item
+  | "lp" -> go lp_decode lp_decode_eof show_lp_item
+  | "lpd" -> go lp_decode lpd_decode_eof show_lp_item
+  | "bytes" -> go bytes_decode bytes_decode_eof show_bytes_item
+  | c -> failwith ("unknown codec " ^ c)
+
+(* ---- c14 ---- *)
+let int_after tok = int_of_string (String.sub tok 1 (String.length tok - 1))
+let parse_wans tok =
+  match tok.[0] with
+  | 'a' -> WAccept (n_of_int (int_after tok))
+  | 'p' -> WPending | 'z' -> WZero | 'e' -> WErr
+  | _ -> failwith ("bad write answer " ^ tok)
+let parse_fans tok =
+  match tok with "o" -> FOk | "p" -> FPending | "e" -> FErr | _ -> failwith ("bad flush answer " ^ tok)
+(* payload of an item: byte j = 'a' + (seed + j) mod 26 *)
+let payload len seed = List.init len (fun j -> z_of_int (97 + (seed + j) mod 26))
+let parse_op tok =
+  match tok.[0] with
+  | 'r' -> OReady | 'f' -> OFlush | 'c' -> OClose
+  | 's' -> let x = String.index tok 'x' in
+           let len = int_of_string (String.sub tok 1 (x - 1)) in
+           let seed = int_of_string (String.sub tok (x + 1) (String.length tok - x - 1)) in
+           OSend (payload len seed)
+  | _ -> failwith ("bad op " ^ tok)
+
+let show_fans = function FOk -> "o" | FPending -> "p" | FErr -> "e"
+let show_wev = function
+  | EvWrite bs -> "w:" ^ blob bs | EvWPending -> "wp" | EvWErr -> "we" | EvWZero -> "wz"
+  | EvFlush a -> "f:" ^ show_fans a | EvShutdown a -> "s:" ^ show_fans a
+let show_wres = function ROk -> "ok" | RPend -> "pend" | RIoErr -> "io" | RWriteZero -> "wz" | REncErr -> "enc"
+
+let c14 line =
+  match String.split_on_char ';' line with
+  | [codec; w; f; s; ops] ->
+    let st = { wbuf = []; ws = List.map parse_wans (split_nonempty ',' w);
+               fs = List.map parse_fans (split_nonempty ',' f);
+               ss = List.map parse_fans (split_nonempty ',' s) } in
+    let optoks = split_nonempty ',' ops in
+    let enc = match codec with
+      | "lines" -> lines_encode | "bytes" -> bytes_encode | "lp" -> lp_encode
+      | c -> failwith ("unknown codec " ^ c) in
+    let (outs, fin) = run_write enc (List.map parse_op optoks) st in
+    let one tok (((r, evs), e), f) =
+      Printf.sprintf "%s[%s]=%s/%s%s" tok (String.concat "," (List.map show_wev evs)) (show_wres r)
+        (if e then "E" else "-") (if f then "F" else "-") in
+    String.concat ";" (List.map2 one optoks outs) ^ "|B" ^ blob fin.wbuf
+  | _ -> failwith "c14: expected 5 fields"
+
 let () =
   let f = match Sys.argv.(1) with
-    | "c15" -> c15 | "c15enc" -> c15enc
+    | "c15" -> c15 | "c15enc" -> c15enc | "c13" -> c13 | "c14" -> c14
     | m -> failwith ("unknown mode " ^ m) in
   try while true do
     let line = input_line stdin in
